@@ -275,11 +275,15 @@ class HSet:
 
 
 class HFile:
-    def __init__(self, path, content, pos, mode, closed=False):
+    """open file.  For read handles the state is `tail`: the bytes not read yet (a plain sequence variable, so that reads
+    give word equations  tail == data ++ tail'  instead of seq.extract terms, which z3 cannot handle)."""
+
+    def __init__(self, path, content, pos, mode, closed=False, tail=None):
         self.path, self.content, self.pos, self.mode, self.closed = path, content, pos, mode, closed
+        self.tail = tail if tail is not None else content
 
     def clone(self):
-        return HFile(self.path, self.content, self.pos, self.mode, self.closed)
+        return HFile(self.path, self.content, self.pos, self.mode, self.closed, self.tail)
 
 
 class HHash:
